@@ -365,6 +365,22 @@ def check_oracle(case, obs=None):
         if not close(r["band"][i], want, 5e-6 * max(1.0, terms / var)):
             return ("uncertainty of fit_function({}) is {!r}; sqrt(g^T Cov g) with the gradient of the {} model at the returned "
                     "parameters is {!r}".format(x, r["band"][i], model, want))
+    # the residuals as quantities: the uncertainty of y_i - fit_function(x_i) carries sigma_y, the x-uncertainty along the
+    # curve and the parameters' covariance: sigma_y^2 + (f'(x_i) sigma_x)^2 + g^T Cov g
+    for i, (x, xe, y, ye) in enumerate(pts):
+        if i >= len(r.get("residual_errors", [])):
+            break
+        g = fc.ref_grad(model, params, x)
+        quad = sum(g[a] * cov[a][b] * g[b] for a in range(n) for b in range(n))
+        terms = sum(abs(g[a] * cov[a][b] * g[b]) for a in range(n) for b in range(n))
+        var = ye ** 2 + (fc.ref_slope(model, params, x) * xe) ** 2 + quad
+        allterms = ye ** 2 + (fc.ref_slope(model, params, x) * xe) ** 2 + terms
+        if var <= 1e-9 * allterms:
+            continue
+        if not close(r["residual_errors"][i], math.sqrt(var), 5e-6 * max(1.0, allterms / var)):
+            return ("uncertainty of residual {} is {!r}; y_i - fit_function(x_i) with sigma_y = {}, sigma_x = {} and the "
+                    "parameters' covariance has sqrt(sigma_y^2 + (f'(x_i) sigma_x)^2 + g^T Cov g) = {!r}"
+                    .format(i, r["residual_errors"][i], ye, xe, math.sqrt(var)))
     # evaluating again at a point whose first returned value was modified by its owner / after the result was drawn
     again = [(x, how, v, e) for x, how, v, e in zip(r["eval"], r.get("again_edit", []), r.get("again", []), r.get("again_band", []))]
     again += [(x, "the result was plotted", v, e) for x, v, e in
